@@ -353,6 +353,8 @@ class IndexInterp:
     def _iterate(self, v, node):
         if isinstance(v, dict):
             return list(v.keys())
+        if isinstance(v, frozenset) and len(v) <= 1:
+            return list(v)
         if isinstance(v, (list, tuple, range)) and not is_token(v):
             return list(v)
         raise AnalysisError("iteration over `%s` outside the index-program fragment" % src(node)[:60])
@@ -419,12 +421,29 @@ class IndexInterp:
             return dict(kw)
         if plain and nm == "dict" and len(args) == 1 and isinstance(args[0], dict) and isinstance(e.func, ast.Name):
             return dict(args[0], **kw)
+        if plain and nm in ("set", "frozenset") and len(args) <= 1 and isinstance(e.func, ast.Name):
+            try:
+                items = self._iterate(args[0], e) if args else []
+                return set(items) if nm == "set" else frozenset(items)
+            except TypeError:
+                raise AnalysisError("unhashable element in `%s`" % src(e)[:60])
+        if isinstance(e.func, ast.Attribute) and nm in ("add", "discard") and len(args) == 1:
+            try:
+                base = self.ev(e.func.value)
+            except AnalysisError:
+                base = None
+            if isinstance(base, set):
+                try:
+                    getattr(base, nm)(args[0])
+                except TypeError:
+                    raise AnalysisError("unhashable element in `%s`" % src(e)[:60])
+                return None
         if plain and nm in ("list", "tuple") and len(args) <= 1:
             seq = self._iterate(args[0], e) if args else []
             return list(seq) if nm == "list" else tuple(seq)
         if plain and nm == "reversed" and len(args) == 1:
             return list(reversed(self._iterate(args[0], e)))
-        if plain and nm == "len" and len(args) == 1 and isinstance(args[0], (list, tuple, dict)) and not is_token(args[0]):
+        if plain and nm == "len" and len(args) == 1 and isinstance(args[0], (list, tuple, dict, set, frozenset)) and not is_token(args[0]):
             return len(args[0])
         if plain and nm == "sum" and 1 <= len(args) <= 2 and isinstance(args[0], (list, tuple)) and not is_token(args[0]):
             acc = args[1] if len(args) == 2 else kw.get("start", 0)
